@@ -111,7 +111,7 @@ def laws : CodeLaws ops where
   newCont_inv := fun _ _ => trivial
   newCont_code := fun _ hc => hc
 
-def gcLaws : GcLaws laws id := ⟨fun _ => ⟨rfl, rfl, rfl, rfl⟩, fun _ h => h, fun _ _ _ hc _ => hc⟩
+def gcLaws : GcLaws laws id := ⟨fun _ => ⟨rfl, rfl, rfl, rfl⟩, fun _ h => h, fun _ _ _ _ hc _ => hc⟩
 
 /-- an idle machine with 16 stack cells -/
 def idle : St Unit :=
